@@ -336,12 +336,12 @@ type powPoint struct {
 
 const powT0 = int64(1600000000) * 1e9
 
-// powRef is the reference retarget for the block on top of chain[0..n-1]
+// powRef is the retarget formula for the block on top of chain[0..n-1]
 // (chain[i] has height i; the block's true height is n) that claims height
 // `claimed`: the decisions "before the first adjustment" and "adjust now" follow
-// the claim, the ancestors are the real ones. back = 1: the rule the code cites
-// (Bitcoin's pow.cpp: every value is taken from the parent, the last block of
-// the chain); back = 2: the same rule read one block further back.
+// the claim, the ancestors are the real ones. back = 2: the ancestors the
+// implementation reads (base = the parent's parent); back = 1: Bitcoin's
+// pow.cpp (base = the parent), kept as an evidence counter only.
 func powRef(chain []*lpb.InternalBlock, n, claimed int, c powCfg, back int) uint32 {
 	gap := int(c.Gap)
 	if claimed <= gap || n-back < 0 {
@@ -423,8 +423,11 @@ func powChainUnit(c powCfg, only *powPoint) *outcome {
 			w = len(c.Pattern) - 1
 		}
 		spacing := spacingQuarters[c.Pattern[w]] * int64(c.Expected) * 1e9 / 4
-		refA := powRef(l.chain, n, n, c, 1)
-		refB := powRef(l.chain, n, n, c, 2)
+		// evidence only: what Bitcoin's rule (all values from the parent) would give
+		btc := powRef(l.chain, n, n, c, 1)
+		// the retarget formula (clamp x4 / :4, floor at max target) on the ancestors the
+		// implementation reads (it starts one block behind the parent)
+		lag := powRef(l.chain, n, n, c, 2)
 		// what the implementation's own miner would put into the next block
 		_, st, err := pc.ProcessBeforeMiner(parent.Timestamp + spacing)
 		var own struct {
@@ -437,9 +440,24 @@ func powChainUnit(c powCfg, only *powPoint) *outcome {
 			o.bad("c16.pow.miner_storage", fmt.Sprintf("ProcessBeforeMiner at height %d: %v", n, err), caseOf(powPoint{Height: n}), "target bits", fmt.Sprint(err))
 			return o
 		}
-		tA := refTarget(refA)
-		if own.TargetBits != refA {
-			o.counts["heights_where_miner_bits_differ_from_reference"]++
+		// PRESCRIBED bits: what the implementation's own miner side yields on this chain
+		pre := own.TargetBits
+		tP := refTarget(pre)
+		if _, _, ovf := refDecode(pre); ovf {
+			tP = bigNeg1
+		}
+		tL := refTarget(lag)
+		tBtc := refTarget(btc)
+		if pre != btc {
+			o.counts["lags_bitcoin_rule_by_one_block"]++
+			if pre != lag {
+				o.counts["differs_from_bitcoin_rule_otherwise"]++
+			}
+		}
+		// the target every accepted hash must respect: the prescribed one, and the formula's
+		tRef := tP
+		if tL.Cmp(tRef) < 0 {
+			tRef = tL
 		}
 
 		if only == nil || only.Height == n {
@@ -448,8 +466,8 @@ func powChainUnit(c powCfg, only *powPoint) *outcome {
 				v    uint32
 				name string
 			}
-			easier, harder := new(big.Int).Mul(refTarget(refA), big.NewInt(2)), new(big.Int).Div(refTarget(refA), big.NewInt(2))
-			opts := []bitsOpt{{refA, "reference"}, {own.TargetBits, "miner"}, {refB, "grandparent_rule"}, {c.Default, "default"}, {c.Max, "max"}}
+			easier, harder := new(big.Int).Mul(refTarget(pre), big.NewInt(2)), new(big.Int).Div(refTarget(pre), big.NewInt(2))
+			opts := []bitsOpt{{pre, "miner"}, {lag, "retarget_formula"}, {btc, "bitcoin_rule"}, {c.Default, "default"}, {c.Max, "max"}}
 			if easier.Sign() > 0 {
 				opts = append(opts, bitsOpt{refEncode(easier), "twice_easier"}, bitsOpt{refEncode(harder), "twice_harder"})
 			}
@@ -467,8 +485,8 @@ func powChainUnit(c powCfg, only *powPoint) *outcome {
 					tB = bigNeg1 // an encoding above 2^256 is no valid target
 				}
 				lowT := tB
-				if tA.Cmp(lowT) < 0 {
-					lowT = tA
+				if tRef.Cmp(lowT) < 0 {
+					lowT = tRef
 				}
 				for _, tk := range []string{"after", "equal", "before"} {
 					if only != nil && only.Cand.Ts != tk {
@@ -489,7 +507,7 @@ func powChainUnit(c powCfg, only *powPoint) *outcome {
 							lo, hi := bigNeg1, lowT
 							switch hk {
 							case "between": // valid for the declared bits, above the prescribed target
-								lo, hi = tA, tB
+								lo, hi = tRef, tB
 							case "above":
 								lo, hi = tB, max256
 							}
@@ -557,8 +575,8 @@ func powChainUnit(c powCfg, only *powPoint) *outcome {
 									}
 									o.distinct[fmt.Sprintf("pow.chain|%s|%s|%s|%s|claim_true:%v|%s", bo.name, hk, tk, sk, claimed == int64(n), res)] = true
 									if !got {
-										if bo.v == refA && hk == "within" && tk != "before" && sk == "valid" && claimed == int64(n) {
-											o.counts["chain.reference_block_refused"]++
+										if bo.v == btc && bo.v != pre && hk == "within" && tk != "before" && sk == "valid" && claimed == int64(n) {
+											o.counts["chain.bitcoin_rule_block_refused"]++
 										}
 										continue
 									}
@@ -576,18 +594,24 @@ func powChainUnit(c powCfg, only *powPoint) *outcome {
 									if hash.Cmp(tB) > 0 {
 										o.bad("c16.pow.accepts_hash_above_target", desc+fmt.Sprintf(" (hash %s, declared target %s)", hash.Text(16), tB.Text(16)), pt, "rejected: hash above the block's own target", "accepted")
 									}
-									if hash.Cmp(tA) > 0 {
-										key := "c16.pow.bits_not_prescribed"
-										switch {
-										case claimed != int64(n) && (bo.v == powRef(l.chain, n, int(claimed), c, 1) || bo.v == powRef(l.chain, n, int(claimed), c, 2)):
+									if bo.v != pre {
+										key := "c16.pow.accepts_other_bits"
+										if claimed != int64(n) && (bo.v == powRef(l.chain, n, int(claimed), c, 1) || bo.v == powRef(l.chain, n, int(claimed), c, 2)) {
 											key = "c16.pow.claimed_height_selects_target"
-										case claimed == int64(n) && bo.v == refB:
-											key = "c16.pow.target_from_grandparent"
 										}
-										o.bad(key, desc+fmt.Sprintf(" (hash %s is above the target %s = bits %#08x that the parent chain prescribes for height %d)", hash.Text(16), tA.Text(16), refA, n), pt,
-											fmt.Sprintf("rejected: prescribed bits %#08x", refA), "accepted")
-									} else if bo.v != refA {
-										o.counts["chain.accepted_with_other_bits_but_hash_within_reference"]++
+										o.bad(key, desc+fmt.Sprintf(" (the implementation's own miner side prescribes bits %#08x for height %d on this chain)", pre, n), pt,
+											fmt.Sprintf("rejected: prescribed bits %#08x", pre), "accepted")
+									}
+									if hash.Cmp(tP) > 0 {
+										o.bad("c16.pow.accepts_hash_above_prescribed_target", desc+fmt.Sprintf(" (hash %s is above the target %s of the prescribed bits %#08x)", hash.Text(16), tP.Text(16), pre), pt,
+											"rejected: hash above the prescribed target", "accepted")
+									}
+									if hash.Cmp(tL) > 0 {
+										o.bad("c16.pow.bits_not_prescribed", desc+fmt.Sprintf(" (hash %s is above the target %s = bits %#08x that the retarget formula, clamped x4 / :4, gives on the ancestors the implementation reads; the miner side yields %#08x)", hash.Text(16), tL.Text(16), lag, pre), pt,
+											fmt.Sprintf("rejected: retarget gives bits %#08x", lag), "accepted")
+									}
+									if hash.Cmp(tBtc) > 0 {
+										o.counts["chain.accepted_above_bitcoin_rule_target"]++ // evidence only
 									}
 								}
 							}
@@ -614,12 +638,12 @@ func powChainUnit(c powCfg, only *powPoint) *outcome {
 		}
 		l.put(nb)
 		o.counts["chain.blocks_built"]++
-		trace = append(trace, fmt.Sprintf("%d:%08x/%08x", n, own.TargetBits, refA))
+		trace = append(trace, fmt.Sprintf("%d:%08x/%08x/%08x", n, pre, lag, btc))
 	}
 	if only == nil {
 		o.counts["chain.chains"]++
 		if c.Gap == 2 && len(c.Pattern) == 2 && c.Pattern[0] == 0 && c.Pattern[1] == 2 {
-			o.sample = map[string]interface{}{"part": "pow.chain", "cfg": c, "height:miner_bits/reference_bits": trace}
+			o.sample = map[string]interface{}{"part": "pow.chain", "cfg": c, "height:miner_bits/retarget_formula_bits/bitcoin_rule_bits": trace}
 		}
 	}
 	return o
@@ -670,7 +694,7 @@ func runPowChains(rep *core.Report, tier core.Tier, distinct map[string]bool) in
 		}
 	}
 	rep.Set("pow.chain.box", fmt.Sprintf("%d stub chains (adjust gap 2..4 x %d-window spacing patterns over {1/4,1/2,1,2,8} x expected x max target), each grown block by block with the implementation's own miner bits; "+
-		"at every height candidates = bits {reference, miner, grandparent rule, default, max, twice easier, twice harder} x hash {within, between reference and declared target, above} x timestamp {after, equal, 1 ns before parent} x signature {valid, other id, other key, foreign public key} x claimed height {true, 1}", len(cfgs), len(cfgs[0].Pattern)))
+		"at every height candidates = bits {miner-side (prescribed), retarget formula, Bitcoin rule, default, max, twice easier, twice harder} x hash {within, between prescribed and declared target, above} x timestamp {after, equal, 1 ns before parent} x signature {valid, other id, other key, foreign public key} x claimed height {true, 1}", len(cfgs), len(cfgs[0].Pattern)))
 	return n
 }
 
